@@ -561,4 +561,10 @@ example : ∃ st' pkts, parseBytes c13Cfg {} (c13V5one 6 ++ c13V5one 17) = (st',
     pkts.length = 2 ∧ ∀ p ∈ pkts, commonViewGood c13Cfg p = true :=
   ⟨{}, [.v5 c13V5hdr [c13V5rec 6 6], .v5 c13V5hdr [c13V5rec 17 17]], by decide +kernel, rfl, by decide +kernel⟩
 
+/-- **C13.0** (regenerated from the source on every run) the library declares no mutable global or per-thread state
+    (`static mut`, `thread_local!`, `OnceLock`/`OnceCell`/`lazy_static!`, `static … : Mutex|RwLock|Atomic…`), as the model assumes
+    by making `parseBytes` a function of `(config, parser state, buffer)`: the common view is a function of the decoded packet alone. -/
+theorem C13_no_global_state : Generated.noGlobals = true := by decide
+
+
 end Netflow.Props
